@@ -376,4 +376,134 @@ theorem mergeCell_list_spec (f : Nat) (lg : Bool) (item : Ty)
     exact entry_eq_trimmed_window _ _ _ _ _ _ hwr i hi
 
 
+theorem tyOf_slice (a : Arr) (o l : Nat) : tyOf (slice a o l) = tyOf a := by
+  match a with
+  | .prim .. => simp [slice, tyOf]
+  | .list .. => simp [slice, tyOf]
+  | .struct len nulls names cols =>
+    simp only [slice, tyOf, sliceCols_eq_map, tyOfCols_eq_map, List.map_map]
+    congr 1
+    apply List.map_congr_left
+    intro c hc
+    exact tyOf_slice c o l
+termination_by sizeOf a
+decreasing_by
+  all_goals simp_wf
+  have := List.sizeOf_lt_of_mem hc
+  omega
+
+theorem tyOfCols_sliceCols (cols : List Arr) (o l : Nat) : tyOfCols (sliceCols cols o l) = tyOfCols cols := by
+  rw [tyOfCols_eq_map, tyOfCols_eq_map, sliceCols_eq_map, List.map_map]
+  apply List.map_congr_left
+  intro c _
+  exact tyOf_slice c o l
+
+theorem uniqCols_eq_all (cols : List Arr) : uniqCols cols = cols.all uniq := by
+  induction cols with
+  | nil => rfl
+  | cons a as ih => simp [uniqCols, ih]
+
+theorem all_congr_mem (cols : List Arr) (f g : Arr → Bool) (h : ∀ c ∈ cols, f c = g c) : cols.all f = cols.all g := by
+  induction cols with
+  | nil => rfl
+  | cons a as ih =>
+    simp only [List.all_cons, h a (by simp), ih (fun c hc => h c (by simp [hc]))]
+
+theorem uniq_slice (a : Arr) (o l : Nat) : uniq (slice a o l) = uniq a := by
+  match a with
+  | .prim .. => simp [slice, uniq]
+  | .list .. => simp [slice, uniq]
+  | .struct len nulls names cols =>
+    simp only [slice, uniq, sliceCols_eq_map, uniqCols_eq_all, List.all_map]
+    congr 1
+    apply all_congr_mem
+    intro c hc
+    exact uniq_slice c o l
+termination_by sizeOf a
+decreasing_by
+  all_goals simp_wf
+  have := List.sizeOf_lt_of_mem hc
+  omega
+
+theorem getD_sub {α : Type} (l : List α) (s e k : Nat) (d : α) (hk : k < e - s) (he : e ≤ l.length) :
+    (sub l s e).getD k d = l.getD (s + k) d := by
+  have h1 : s + k < l.length := by omega
+  simp [sub, List.getD, h1, hk]
+
+
+/-- list-of-struct columns present on both sides of `merge_with_schema`, element by element: element `k` of entry `i` of
+    the merged list is `mwsRow` of element `k` of entry `i` of the two input lists (inputs with the same entry lengths) -/
+theorem mergeCell_list_of_struct_spec (f : Nat) (lg : Bool) (sn : List String) (st : List Ty)
+    (lg1 : Bool) (off len : Nat) (nulls : Option Nulls) (offs : List Nat)
+    (cl : Nat) (cn : Option Nulls) (csn : List String) (csc : List Arr)
+    (lg2 : Bool) (roff rlen : Nat) (rnulls : Option Nulls) (roffs : List Nat)
+    (dl : Nat) (dn : Option Nulls) (dsn : List String) (dsc : List Arr) (c : Arr)
+    (hwl : wf (.list lg1 off len nulls offs (.struct cl cn csn csc)) = true)
+    (hwr : wf (.list lg2 roff rlen rnulls roffs (.struct dl dn dsn dsc)) = true)
+    (hul : uniq (.struct cl cn csn csc) = true) (hur : uniq (.struct dl dn dsn dsc) = true)
+    (hsame : rebasedOffs roffs roff rlen = rebasedOffs offs off len)
+    (h : mergeCell (f + 1) (.list lg (.struct sn st)) (.list lg1 off len nulls offs (.struct cl cn csn csc))
+          (.list lg2 roff rlen rnulls roffs (.struct dl dn dsn dsc)) = .ok c) :
+    ∀ i, i < len → (validAt nulls i || validAt rnulls i) = true →
+      ∃ es, (logical c).getD i .null = .list es ∧
+        es.length = offs.getD (off + i + 1) 0 - offs.getD (off + i) 0 ∧
+        ∀ k, k < es.length → ∀ v,
+          mwsRow csn (tyOfCols csc) dsn (tyOfCols dsc) sn st
+            ((sub (logical (.struct cl cn csn csc)) (offs.getD (off + i) 0) (offs.getD (off + i + 1) 0)).getD k .null)
+            ((sub (logical (.struct dl dn dsn dsc)) (roffs.getD (roff + i) 0) (roffs.getD (roff + i + 1) 0)).getD k .null)
+            = some v →
+          es.getD k .null = v := by
+  intro i hi hvalid
+  obtain ⟨hrl, _, vals, hvals, hrows⟩ :=
+    mergeCell_list_spec f lg (.struct sn st) lg1 off len nulls offs _ lg2 roff rlen rnulls roffs _ c hwl hwr h
+  subst hrl
+  obtain ⟨hrow, hL, hR⟩ := hrows i hi
+  have hR := hR hsame
+  obtain ⟨_, _, f0, _, hws⟩ := mergeCell_struct f sn st _ _ vals hvals
+  obtain ⟨hm, hl, hwc, _⟩ := wf_list_parts _ _ _ _ _ _ hwl
+  obtain ⟨hmr, hlr, hwcr, _⟩ := wf_list_parts _ _ _ _ _ _ hwr
+  have h0 := mono_le offs off rlen hm 0 rlen (by omega) (by omega)
+  have h0r := mono_le roffs roff rlen hmr 0 rlen (by omega) (by omega)
+  simp only [Nat.add_zero] at h0 h0r
+  -- the trimmed values are struct arrays
+  have hwtl := wf_slice _ (offs.getD off 0) (offs.getD (off + rlen) 0 - offs.getD off 0) hwc (by omega)
+  have hwtr := wf_slice _ (roffs.getD roff 0) (roffs.getD (roff + rlen) 0 - roffs.getD roff 0) hwcr (by omega)
+  have hutl : uniq (slice (.struct cl cn csn csc) (offs.getD off 0) (offs.getD (off + rlen) 0 - offs.getD off 0)) = true := by
+    rw [uniq_slice]; exact hul
+  have hutr : uniq (slice (.struct dl dn dsn dsc) (roffs.getD roff 0) (roffs.getD (roff + rlen) 0 - roffs.getD roff 0)) = true := by
+    rw [uniq_slice]; exact hur
+  simp only [trimmedValues] at hws hL hR
+  simp only [slice] at hws hwtl hwtr hutl hutr hL hR
+  have hspec := mergeWS_spec_le f0 f0 (Nat.le_refl _) _ _ _ _ _ _ _ _ sn st vals hwtl hwtr hutl hutr hws
+  have hvl : vals.len = offs.getD (off + rlen) 0 - offs.getD off 0 := (mergeWS_validity f0 _ _ vals sn st hws).1
+  -- bounds of the window
+  have hb1 := (monoOffs_iff _ _ _).1 hm i hi
+  have hb0 := mono_le offs off rlen hm 0 i (by omega) (by omega)
+  have hb2 := mono_le offs off rlen hm (i + 1) rlen (by omega) (by omega)
+  simp only [Nat.add_zero] at hb0
+  have e1 : off + (i + 1) = off + i + 1 := by omega
+  rw [e1] at hb2
+  have ga := getD_rebasedOffs offs off rlen i (by omega)
+  have gb := getD_rebasedOffs offs off rlen (i + 1) (by omega)
+  rw [← Nat.add_assoc] at gb
+  rw [hvalid] at hrow
+  simp only [if_true] at hrow
+  refine ⟨_, hrow, ?_, ?_⟩
+  · rw [length_sub _ _ _ (by rw [length_logical, hvl, gb]; omega), ga, gb]; omega
+  · intro k hk v hv
+    have hklt : k < (rebasedOffs offs off rlen).getD (i + 1) 0 - (rebasedOffs offs off rlen).getD i 0 := by
+      rw [length_sub _ _ _ (by rw [length_logical, hvl, gb]; omega)] at hk; exact hk
+    rw [getD_sub _ _ _ _ _ hklt (by rw [length_logical, hvl, gb]; omega)]
+    rw [hL, hR] at hv
+    rw [getD_sub _ _ _ _ _ hklt (by rw [length_logical]; simp only [Arr.len]; rw [gb]; omega),
+      getD_sub _ _ _ _ _ hklt (by
+        rw [length_logical]; simp only [Arr.len]
+        have := congrArg (fun l => l.getD rlen 0) hsame
+        simp only [getD_rebasedOffs _ _ _ _ (Nat.le_refl _)] at this
+        rw [gb]; omega)] at hv
+    apply hspec _ (by rw [ga, gb] at hklt; rw [ga]; omega) v
+    rw [tyOfCols_sliceCols, tyOfCols_sliceCols]
+    exact hv
+
+
 end LanceModel.C40
